@@ -159,11 +159,27 @@ def _evaluate_require(ast, file_path, package_lua, lua_path=None):
             # first require() the Lua interpreter encounters.)
 
             if not use_game_loop:
-                reqd_lua.root.stats[:] = [
-                    s for s in reqd_lua.root.stats
-                    if not isinstance(s, parser.StatFunction) or
-                    s.funcname.namepath[0].value not in GAME_LOOP_FUNCTION_NAMES]  # noqa: E501
-                reqd_lua.reparse(writer_cls=lua.LuaASTEchoWriter)
+                # Drop the game loop functions, together with their tokens.
+                # (Removing only the AST nodes leaves tokens behind that the
+                # AST writer cannot account for.)
+                tokens = reqd_lua.tokens
+                kept_tokens = []
+                pos = 0
+                for s in reqd_lua.root.stats:
+                    if (isinstance(s, parser.StatFunction) and
+                            s.funcname.namepath[0].value in GAME_LOOP_FUNCTION_NAMES):  # noqa: E501
+                        start_pos = s.start_pos
+                        while isinstance(tokens[start_pos],
+                                         (lexer.TokSpace, lexer.TokNewline,
+                                          lexer.TokComment)):
+                            # (Keep the whitespace and comments before it.)
+                            start_pos += 1
+                        kept_tokens.extend(tokens[pos:start_pos])
+                        pos = s.end_pos
+                kept_tokens.extend(tokens[pos:])
+                reqd_lua = lua.Lua.from_lines(
+                    [b''.join(t.code for t in kept_tokens)],
+                    version=game.DEFAULT_VERSION)
 
             package_lua[require_path] = reqd_lua
             _evaluate_require(reqd_lua, reqd_filepath,
